@@ -365,9 +365,17 @@ impl Runner {
                                             (None, None)
                                         };
                                         if let (Some(u), Some(l)) = (up, lo) {
-                                            // upper below lower, or equal bounds with a strict side
-                                            let strict = matches!(o1, Cmp::Lt | Cmp::Gt) || matches!(o2, Cmp::Lt | Cmp::Gt);
-                                            if lit_lt(u, l) || (strict && !lit_lt(l, u)) {
+                                            let upper_strict = matches!(o1, Cmp::Lt) || matches!(o2, Cmp::Lt);
+                                            let lower_strict = matches!(o1, Cmp::Gt) || matches!(o2, Cmp::Gt);
+                                            if let (Lit::I(ui), Lit::I(li)) = (u, l) {
+                                                // integers: no value left between the effective bounds
+                                                let hi = if upper_strict { ui - 1 } else { *ui };
+                                                let lo = if lower_strict { li + 1 } else { *li };
+                                                if hi < lo {
+                                                    return true;
+                                                }
+                                            } else if lit_lt(u, l) || ((upper_strict || lower_strict) && !lit_lt(l, u)) {
+                                                // upper below lower, or equal bounds with a strict side
                                                 return true;
                                             }
                                         }
